@@ -89,6 +89,18 @@ func (Tail) Decode(raw []byte) (engine.Plan, error) {
 func (Tail) Generate(seed uint64, tier string) engine.Plan {
 	r := engine.NewPRNG(seed)
 	p := &TailPlan{NetSeed: r.Uint64(), ProbeSeed: r.Uint64()}
+	if strings.HasSuffix(tier, "/rare1") {
+		// placed at one run index per 1024: more than 8192 consecutive complete
+		// words queued behind the first word when it completes (half a million
+		// ids acknowledged back to front) — a compaction that works in bounded
+		// slices, by count or by time, has to finish the job all the same
+		p.Offset = r.PickInt64(0, 64, 1<<40)
+		p.Threshold = 0
+		p.Producers = []TailProducer{{Start: p.Offset, Count: 8192*64 + 64*r.PickInt(1, 3, 40), Stride: 1, Order: "desc"}}
+		p.Instances = 1
+		p.Sched = engine.Schedule{Mode: "seq"}
+		return p
+	}
 	p.Offset = r.PickInt64(0, 0, 64, 640, 1<<40)
 	if r.Chance(1, 8) {
 		// around the widths a narrower intermediate would have
